@@ -6,6 +6,7 @@ CONSTANTS
   Scripts = {"s1", "s2"}
   Classes = {"k1", "k2"}
   BlockHandles = {"h1", "h2"}
+  ZeroHandles = {}
   FixedHandles = {"g1"}
   RegSeq <- RegK1
   OnSeqs <- OnSeqsFull
